@@ -336,3 +336,107 @@ def targets(tier='quick'):
         T.append(Target('param/history-propagators[M=%d]' % M, 'system.ParameterizedSystem.get_propagators', scen_hist(M), post_hist_props, RH, PROP,
                         invoke=invoke_hist_props, replay=lambda ob: {'func': 'gradient_two_time_grids', 'inputs': {}}))
     return T
+
+
+# ---- state_gradient: the public entry point hands the SAME (dt, parameters, start_time, number of steps) to the adjoint computation,
+# to the propagators and to their derivatives, and assembles the result from what they return (forwarding contract)
+def sg_registry():
+    R = Registry()
+
+    @model
+    def m_cgd(ip, args, kw):
+        ip.ghost['cgd'] = (list(args), dict(kw))
+        return (Vc('grad_prop'), Obj('DynM', {'states': Seq(Int('n_states'), (lambda f: lambda j: f(j))(z3.Function('state_at', z3.IntSort(), V)), 'list')}))
+
+    @model
+    def m_props(ip, args, kw):
+        ip.ghost['props'] = (list(args[1:]), dict(kw))
+        return Vc('propagators_accessor')
+
+    @model
+    def m_derivs(ip, args, kw):
+        ip.ghost['derivs'] = (list(args[1:]), dict(kw))
+        return Vc('derivatives_accessor')
+
+    @model
+    def m_chain(ip, args, kw):
+        ip.ghost['chain'] = (list(args), dict(kw))
+        return Vc('final_derivs')
+
+    @model
+    def m_check(ip, args, kw):
+        return None
+    R.models['gradient.compute_gradient_and_dynamics'] = m_cgd
+    R.models['PSys.get_propagators'] = m_props
+    R.models['PSys.get_propagator_derivatives'] = m_derivs
+    R.models['gradient._chain_rule'] = m_chain
+    R.models['util.check_isinstance'] = m_check
+    return R
+
+
+def scen_sg(ip, repo):
+    N, M = Int('N'), Int('M')
+    ip.assume(z3.And(N >= 1, M >= 1, Int('n_states') >= 1))
+    dt = Real('dt_pt')
+    pts = [Obj('PTm', {'dt': dt, 'len': N, 'idx': 0}), Obj('PTm', {'dt': dt, 'len': N, 'idx': 1})]       # documented: each with N time steps (same grid)
+    params = Obj('ParamArr', {'shape': (2 * N, M)})
+    system = Obj('PSys', {})
+    rho, target = Vc('initial_state'), Vc('target_derivative')
+    t0 = Real('start_time')
+    kw = {'system': system, 'initial_state': rho, 'target_derivative': target, 'process_tensors': pts, 'parameters': params, 'start_time': t0, 'progress_type': 'silent'}
+    return {'args': [], 'kwargs': kw, 'N': N, 'M': M, 'dt': dt, 'kw': kw, 'inputs': {'N': N, 'M': M}}
+
+
+def sg_len_model(R):
+    @model
+    def m_len(ip, args, kw):
+        return args[0].fields['len']
+    R.models['PTm.__len__'] = m_len
+    return R
+
+
+def post_sg(ip, ctx, out):
+    if not expect_no_other_exception(ip, out):
+        return
+    g = ip.ghost
+    kw = ctx['kw']
+    ok_all = all(k in g for k in ('cgd', 'props', 'derivs', 'chain'))
+    ip.prove('sg/all-four-stages-run', z3.BoolVal(ok_all))
+    if not ok_all:
+        return
+    a, k = g['cgd']
+    ip.prove('sg/adjoint-computation-gets-the-callers-inputs', z3.BoolVal(
+        k.get('system') is kw['system'] and k.get('initial_state') is kw['initial_state'] and k.get('target_derivative') is kw['target_derivative']
+        and k.get('process_tensors') is kw['process_tensors'] and k.get('parameters') is kw['parameters'] and k.get('start_time') is kw['start_time']),
+        {'handed over': {x: repr(v) for x, v in k.items()}})
+    ip.prove('sg/time-grid-of-the-first-process-tensor', z3.And(veq(k.get('dt'), ctx['dt']), veq(k.get('num_steps'), ctx['N'])), {'dt': repr(k.get('dt')), 'num_steps': repr(k.get('num_steps'))})
+    for nm in ('props', 'derivs'):
+        a2, k2 = g[nm]
+        vals = a2 + [k2[x] for x in sorted(k2)]
+        ip.prove('sg/%s-use-the-same-dt-and-parameters' % ('propagators' if nm == 'props' else 'derivatives'),
+                 z3.BoolVal(len(vals) == 2 and vals[1] is kw['parameters']) if len(vals) == 2 and not is_z3(vals[1]) else z3.BoolVal(False),
+                 {'arguments': repr(vals)})
+        if len(vals) == 2:
+            ip.prove('sg/%s-dt' % ('propagators' if nm == 'props' else 'derivatives'), veq(vals[0], ctx['dt']))
+    a3, k3 = g['chain']
+    names = ['adjoint_tensor', 'dprop_dparam', 'propagators', 'num_steps', 'num_parameters']
+    C = {n: (k3[n] if n in k3 else (a3[i] if i < len(a3) else None)) for i, n in enumerate(names)}
+    ip.prove('sg/chain-rule-inputs', z3.And(C['adjoint_tensor'] == Vc('grad_prop'), C['dprop_dparam'] == Vc('derivatives_accessor'), C['propagators'] == Vc('propagators_accessor'),
+                                            veq(C['num_steps'], ctx['N']), veq(C['num_parameters'], ctx['M'])), {x: repr(v) for x, v in C.items()})
+    r = out.value
+    okr = isinstance(r, dict) and set(r) >= {'final_state', 'gradprop', 'gradient', 'dynamics'}
+    ip.prove('sg/result-keys', z3.BoolVal(bool(okr)))
+    if okr:
+        n = Int('n_states')
+        ip.prove('sg/result-assembly', z3.And(r['gradprop'] == Vc('grad_prop'), r['gradient'] == Vc('final_derivs'),
+                                              r['final_state'] == z3.Function('state_at', z3.IntSort(), V)(n - 1)))
+
+
+_t_c08 = targets
+
+
+def targets(tier='quick'):
+    T = _t_c08(tier)
+    T.append(Target('grad/state_gradient', 'gradient.state_gradient', scen_sg, post_sg, sg_len_model(sg_registry()), PROP,
+                    replay=lambda ob: {'func': 'gradient_vs_finite_difference', 'inputs': {'obligation': ob['name']}}))
+    return T
